@@ -534,7 +534,9 @@ class dir_archive(archive):
         return
     def _lsdir(self):
         "get a list of subdirectories in the root directory"
-        return walk(self.__state__['id'],patterns=PREFIX+'*',recurse=False,folders=True,files=False,links=False)
+        dirs = walk(self.__state__['id'],patterns=PREFIX+'*',recurse=False,folders=True,files=False,links=False)
+        # a temporary directory (of a store that is in progress, or was interrupted) is not an entry
+        return [d for d in dirs if not os.path.basename(d).startswith(PREFIX+TEMP)]
     def _hasinput(self, root):
         "check if results subdirectory has stored input file"
         return bool(walk(root,patterns=self._args,recurse=False,folders=False,files=True,links=False))
@@ -644,6 +646,9 @@ class dir_archive(archive):
                         f.write(_b(memo))
         except OSError:
             "failed to populate directory for '%s'" % str(key)
+        except:
+            self._rmdir(_key) # don't leave the temporary directory behind
+            raise
         # move the results to the proper place
         try: #XXX: possible permissions issues here
             self._rmdir(key) #XXX: 'key' must be a suitable dir name
